@@ -209,7 +209,7 @@ PASS_NAMES = ["dce", "ident", "cse", "cse100", "dedup", "dedup8", "deduph", "top
               "liftsub", "rminit", "addinit", "inline", "outfix", "defattr", "shape", "clear", "rmfunc", "rmopset"]
 # passes with an executable Gallina model (structural correspondence = model pass output vs implementation)
 MODELLED = {"dce", "ident", "cse", "cse100", "dedup", "dedup8", "deduph", "lift", "lift0", "liftall", "liftsub", "rminit",
-            "addinit", "outfix", "rmfunc", "defattr"}
+            "addinit", "outfix", "rmfunc", "defattr", "inline"}
 # passes that may only touch what is outside the term language (names, metadata, shapes, opset imports): frame check
 FRAME = {"namefix", "shape", "clear", "rmopset"}
 RELATIONAL = {"topo"}        # checked against the reorder relation (exact order: property C12)
@@ -527,13 +527,15 @@ def model_expr(name: str, p, m, conv: Conv, info, before: str, base: int) -> str
         return f"(fst (output_fix {clist(scopes)} {before} {base}))"
     if name == "rmfunc":
         return f"(remove_unused_funcs {FUEL} {before})"
+    if name == "inline":
+        return f"(fst (fst (inline_pass {FUEL} {before} {base} {conv.next_g})))"
     if name == "defattr":
         return f"(add_default_attrs {defaults_table(m, conv)} {FUEL} {before})"
     return None
 
 
 CASE_HEADER = """From Coq Require Import ZArith NArith List Bool.
-From IRV Require Import Base.Exn Gen.C05Gen C05.Model.
+From IRV Require Import Base.Exn Gen.C05Gen C05.Model C05.Inline.
 Import ListNotations.
 Open Scope N_scope.
 """
@@ -594,7 +596,9 @@ def steps_to_coq(steps: list[Step]) -> str:
     for k, st in enumerate(steps):
         out.append(f"Definition b{k} : model := {st.before}.\nDefinition a{k} : model := {st.after}.\n")
         valids.append(f"wfb b{k} && outputs_localb b{k}")
-        if st.kind == "model":
+        if st.kind == "model" and st.pass_name == "inline":
+            flags.append(f"model_agree_deep 12 {st.base} {st.expr.replace('BEFORE', f'b{k}')} a{k}")
+        elif st.kind == "model":
             flags.append(f"model_agree {st.base} {st.expr.replace('BEFORE', f'b{k}')} a{k}")
         elif st.kind == "frame":
             flags.append(f"model_agree {st.base} b{k} a{k}")
@@ -1315,6 +1319,10 @@ def run(ck) -> None:
                     "ShapeInference/RemoveUnusedOpsets are outside the term language (frame check).")
     generate(ck)
     ck.prove()
+    # the case files also use the executable inliner model (C05/Inline.v): make sure its .vo is current
+    rc, out = common.make(["theories/C05/Inline.vo"], timeout=600)
+    if rc != 0:
+        ck.broken("build:C05/Inline.v", out[-2000:])
     reported: set = set()
     # corpus first
     corpus = _corpus()
